@@ -1,4 +1,284 @@
-import AY.Spec.Plain
+/-
+  AY.Props.C09 — cross-references alias their target, in any order, and always terminate.
+
+  Property text: "A !xref (or !ref) node evaluates to the very same object as the node at the
+  referenced path - not a copy - wherever the target is defined (earlier, later, in another file,
+  inside lists, mappings or call arguments) and through chains of references of any length. A
+  reference to a missing path, to itself, or a cycle of references is reported as an evaluation
+  error; evaluation never hangs."
+
+  The statements are about `xrefLoop` (XRefNode.on_evaluate_impl), `ctxGetNode` (ctx.get_node),
+  `evalImpl`, `evalNodeF`, `evaluate`, `config` of AY.Model.Eval. Object identity is `Val` equality:
+  containers and execution results carry the path of the node that produced them (`oid`), so equal
+  `Val`s are the same object. Only property theorems live here; lemmas are in
+  AY.Lemmas.XrefLemmas (`xrefStep`, `xrefTexts`, `xrefTarget`), AY.Lemmas.EvalLemmas and
+  AY.Lemmas.OnceLemmas (`xrefResolve`, `Cov`, `evaluate_xref_alias`).
+-/
+import AY.Lemmas.OnceLemmas
 namespace AY
-theorem C09_placeholder : foldUpd [] = .error .value := rfl
+
+/-! ### Termination -/
+
+/- "evaluation never hangs": `evaluate` and `config` are total Lean functions (structural recursion
+   on an explicit fuel), so every input has a result; this is trivial in Lean and is only as good
+   as the claim that the fuel is never the reason for an answer. For the reference loop that claim
+   is `C09_xref_chain_bounded` below. (`evalNodeF` itself reports fuel exhaustion as
+   `Err.unsupported`, an error class that is never compared with the library.) -/
+theorem C09_total (w : World) (root : Node) :
+    (∃ r, evaluate w root = r) ∧ (∃ r, config w root = r) := ⟨⟨_, rfl⟩, ⟨_, rfl⟩⟩
+
+/-- `{a: !xref b, b: !xref c, c: [1, !xref "c[0]"], d: !xref a}` -/
+def c09ExChain : Node :=
+  .comp {} .dict [
+    (.str "a", .leaf {} (.xref "b")),
+    (.str "b", .leaf {} (.xref "c")),
+    (.str "c", .comp {} .list [(.int 0, .leaf {} (.scalar (.int 1))), (.int 1, .leaf {} (.xref "c[0]"))]),
+    (.str "d", .leaf {} (.xref "a"))]
+
+example : ∃ v st, evaluate {} c09ExChain = .ok (v, st) := ⟨_, _, rfl⟩
+
+/- The loop makes at most `fuel` iterations (it recurses on `fuel`). `evalImpl` starts it with
+   `root.size + 1`. Running out of fuel is indistinguishable from an evaluation error in the result,
+   so "fuel exhaustion cannot happen" is stated as: any additional fuel gives the same result.
+   Reason: every iteration that continues appends a text not yet in the chain, and all texts but
+   the first are texts of `!xref` nodes of `root`, of which there are at most `root.size` (fewer for
+   a composed root). -/
+theorem C09_xref_chain_bounded (rec : Rec) (f : Flags) (k : CompKind) (cs : List (Key × Node))
+    (rs : Bool) (self : Path) (target : String) (st : EvSt) (extra : Nat) :
+    xrefLoop rec (.comp f k cs) rs self ((Node.comp f k cs).size + 1 + extra) target [] st =
+      xrefLoop rec (.comp f k cs) rs self ((Node.comp f k cs).size + 1) target [] st := by
+  apply xrefLoop_fuel_irrelevant rec (.comp f k cs) rs self (target :: xrefTexts (.comp f k cs))
+    (fun t ht => List.mem_cons_of_mem _ ht) extra
+  · exact List.nodup_nil
+  · intro t ht; simp at ht; subst ht; exact List.mem_cons_self
+  · have := xrefTexts_length_lt_comp f k cs
+    simp only [List.length_cons, List.length_nil]; omega
+
+example : xrefLoop (evalNodeF c09ExChain {} 20) c09ExChain false [.str "d"] (c09ExChain.size + 1 + 100) "a" [] {} =
+    xrefLoop (evalNodeF c09ExChain {} 20) c09ExChain false [.str "d"] (c09ExChain.size + 1) "a" [] {} :=
+  C09_xref_chain_bounded _ _ _ _ _ _ _ _ _
+
+/- the same for any root (also a root that is a single leaf) when the reference node itself is a
+   node of the tree — which is the case for every reference `evaluate` meets -/
+theorem C09_xref_chain_bounded_placed (rec : Rec) (root : Node) (rs : Bool) (f : Flags) (self : Path)
+    (target : String) (st : EvSt) (extra : Nat) (hp : Placed root (.leaf f (.xref target)) self) :
+    xrefLoop rec root rs self (root.size + 1 + extra) target [] st =
+      xrefLoop rec root rs self (root.size + 1) target [] st := by
+  apply xrefLoop_fuel_irrelevant rec root rs self (xrefTexts root) (fun t ht => ht) extra
+  · exact List.nodup_nil
+  · intro t ht; simp at ht; subst ht; exact hp.xref_mem
+  · have := xrefTexts_length_le root
+    simp only [List.length_nil]; omega
+
+example : Placed c09ExChain (.leaf {} (.xref "a")) [.str "d"] :=
+  Placed.of_getNode (root := c09ExChain) rfl
+
+/- the chain of texts the loop has seen never contains a text twice (the general fact behind the
+   bound): a continuing iteration met a text that was not in the chain, whose path is not memoised,
+   is not the path of the reference itself, and holds another reference -/
+theorem C09_xref_step (rec : Rec) (root : Node) (rs : Bool) (self : Path) (fuel : Nat) (cur : String)
+    (chain : List String) (st : EvSt) :
+    (∃ r, xrefStep rec root rs self cur chain st = .done r ∧
+      xrefLoop rec root rs self (fuel + 1) cur chain st = r) ∨
+    (∃ next tp f, xrefStep rec root rs self cur chain st = .next next ∧
+      xrefLoop rec root rs self (fuel + 1) cur chain st = xrefLoop rec root rs self fuel next (chain ++ [cur]) st ∧
+      cur ∉ chain ∧ splitPath cur = some tp ∧ tp ≠ self ∧ plookup tp st.cache = none ∧
+      getNode root tp = some (.leaf f (.xref next))) := by
+  rw [xrefLoop_succ]
+  cases h : xrefStep rec root rs self cur chain st with
+  | done r => exact .inl ⟨r, rfl, rfl⟩
+  | next t =>
+    obtain ⟨h1, tp, f, h2, h3, h4, h5⟩ := xrefStep_next h
+    exact .inr ⟨t, tp, f, rfl, rfl, h1, h2, h3, h4, h5⟩
+
+example : xrefStep (evalNodeF c09ExChain {} 20) c09ExChain false [.str "d"] "a" [] {} = .next "b" := rfl
+
+/-! ### Errors -/
+
+/- "A reference to a missing path, to itself … is reported as an evaluation error": for every
+   recursive evaluator, state and mode, a reference whose text is not a path, or names a path that is
+   neither memoised nor in the tree, or names the path of the reference itself (not memoised: the
+   reference is being evaluated), is `EvalError` -/
+theorem C09_self_and_missing_are_errors (rec : Rec) (root : Node) (w : World) (rs : Bool) (f : Flags)
+    (t : String) (path : Path) (st : EvSt) :
+    (splitPath t = none → evalImpl rec root w rs (.leaf f (.xref t)) path st = .error .eval) ∧
+    (∀ tp, splitPath t = some tp → plookup tp st.cache = none → getNode root tp = none →
+      evalImpl rec root w rs (.leaf f (.xref t)) path st = .error .eval) ∧
+    (splitPath t = some path → plookup path st.cache = none →
+      evalImpl rec root w rs (.leaf f (.xref t)) path st = .error .eval) := by
+  refine ⟨?_, ?_, ?_⟩
+  · intro h
+    simp [evalImpl, xrefLoop, h]
+  · intro tp h hc hg
+    simp [evalImpl, xrefLoop, h, ctxGetNode, hc, hg]
+  · intro h hc
+    simp only [evalImpl, xrefLoop, h, ctxGetNode, hc]
+    cases getNode root path <;> simp
+
+/-- `{a: !xref "a b", b: !xref nope, c: !xref c}` : not a path, missing, itself -/
+def c09ExBad : Node :=
+  .comp {} .dict [
+    (.str "a", .leaf {} (.xref "a b")), (.str "b", .leaf {} (.xref "nope")), (.str "c", .leaf {} (.xref "c"))]
+
+example : splitPath "a b" = none ∧
+    (splitPath "nope" = some [.str "nope"] ∧ getNode c09ExBad [.str "nope"] = none) ∧
+    splitPath "c" = some [.str "c"] := by decide
+
+example : evaluate {} c09ExBad = .error .eval ∧
+    evaluate {} (.comp {} .dict [(.str "b", .leaf {} (.xref "nope"))]) = .error .eval ∧
+    evaluate {} (.comp {} .dict [(.str "c", .leaf {} (.xref "c"))]) = .error .eval := ⟨rfl, rfl, rfl⟩
+
+/- at the level of `evaluate_node`: a reference to its own path never evaluates freshly — the only
+   way `evalNodeF` can succeed on it is a memo hit (which is impossible from `evaluate`, where a
+   path is memoised only after its node was evaluated) -/
+theorem C09_self_reference_never_fresh (root : Node) (w : World) (fuel : Nat) (rs : Bool) (f : Flags)
+    (t : String) (path : Path) (st st' : EvSt) (v : Val) (ht : splitPath t = some path)
+    (h : evalNodeF root w fuel rs (.leaf f (.xref t)) path st = .ok (v, st')) :
+    plookup path st.cache = some v := by
+  cases fuel with
+  | zero => simp [evalNodeF] at h
+  | succ fuel =>
+    obtain ⟨_, hcase⟩ := evalNodeF_ok_inv h
+    rcases hcase with ⟨hv, _, _⟩ | ⟨hnone, _, st2, himpl, _⟩
+    · exact hv
+    · rw [(C09_self_and_missing_are_errors _ root w rs f t path _).2.2 ht (by simpa using hnone)] at himpl
+      cases himpl
+
+example : splitPath "c" = some [.str "c"] ∧
+    evalNodeF c09ExBad {} 5 false (.leaf {} (.xref "c")) [.str "c"] {} = .error .eval := ⟨by decide, rfl⟩
+
+/- "… or a cycle of references is reported as an evaluation error": as soon as the loop meets a text
+   it has already followed, the result is an error (EvalError; UnsafeError only when the repeated
+   text names a tainted memoised value in strict mode) -/
+theorem C09_repeated_text_is_error (rec : Rec) (root : Node) (rs : Bool) (self : Path) (fuel : Nat)
+    (cur : String) (chain : List String) (st : EvSt) (hc : cur ∈ chain) :
+    ∃ e, xrefLoop rec root rs self fuel cur chain st = .error e ∧ (e = .eval ∨ e = .unsafeE) := by
+  cases fuel with
+  | zero => exact ⟨.eval, rfl, .inl rfl⟩
+  | succ fuel =>
+    obtain ⟨e, he, hcl⟩ := xrefStep_repeat (rec := rec) (root := root) (rs := rs) (self := self) (st := st) hc
+    exact ⟨e, by rw [xrefLoop_succ, he], hcl⟩
+
+example : xrefLoop (evalNodeF c09ExChain {} 20) c09ExChain false [.str "d"] 7 "a" ["a", "b"] {} = .error .eval := rfl
+
+/- a chain that never reaches a memoised path or a node that is not a reference (`xrefTarget`
+   finds nothing) cannot succeed, whatever the fuel: every cycle is an error -/
+theorem C09_no_target_is_error (root : Node) (w : World) (f : Nat) (rs : Bool) (self : Path)
+    (fuel : Nat) (cur : String) (chain : List String) (st : EvSt)
+    (h : xrefTarget root st.cache fuel cur = none) :
+    ∃ e, xrefLoop (evalNodeF root w f) root rs self fuel cur chain st = .error e := by
+  cases hr : xrefLoop (evalNodeF root w f) root rs self fuel cur chain st with
+  | error e => exact ⟨e, rfl⟩
+  | ok r =>
+    obtain ⟨v, st'⟩ := r
+    obtain ⟨tp, htp, _⟩ := xrefLoop_alias fuel cur chain st v st' hr
+    rw [h] at htp; cases htp
+
+/-- the 2-cycle `a: !xref b, b: !xref a` -/
+def c09ExCycle2 : Node := .comp {} .dict [(.str "a", .leaf {} (.xref "b")), (.str "b", .leaf {} (.xref "a"))]
+/-- a cycle entered from outside: `x: !xref a, a: !xref b, b: !xref c, c: !xref a` -/
+def c09ExCycle3 : Node :=
+  .comp {} .dict [(.str "x", .leaf {} (.xref "a")), (.str "a", .leaf {} (.xref "b")),
+    (.str "b", .leaf {} (.xref "c")), (.str "c", .leaf {} (.xref "a"))]
+
+example : evaluate {} c09ExCycle2 = .error .eval := rfl
+example : config {} c09ExCycle2 = .error .eval := rfl
+example : evaluate {} c09ExCycle3 = .error .eval := rfl
+example : xrefTarget c09ExCycle3 [] (c09ExCycle3.size + 1) "a" = none := by decide
+
+/-! ### Aliasing -/
+
+/- "A !xref node evaluates to the very same object as the node at the referenced path … through
+   chains of references of any length": if the loop succeeds with `(v, st')`, then `v` is the value
+   memoised in `st'` for the path `tp` the chain ends in (`xrefTarget`: the first memoised path or the
+   first node that is not a reference) -/
+theorem C09_alias (root : Node) (w : World) (f : Nat) (rs : Bool) (self : Path) (fuel : Nat)
+    (cur : String) (chain : List String) (st st' : EvSt) (v : Val)
+    (h : xrefLoop (evalNodeF root w f) root rs self fuel cur chain st = .ok (v, st')) :
+    ∃ tp, xrefTarget root st.cache fuel cur = some tp ∧ plookup tp st'.cache = some v :=
+  xrefLoop_alias fuel cur chain st v st' h
+
+example : ∃ v st', xrefLoop (evalNodeF c09ExChain {} 20) c09ExChain false [.str "d"] 6 "a" [] {} = .ok (v, st') ∧
+    plookup [.str "c"] st'.cache = some v := by
+  refine ⟨_, _, rfl, ?_⟩; rfl
+
+/- the same for a reference node evaluated through `evaluate_node`: after a fresh successful
+   evaluation the reference's own path and the target path are memoised with the same value -/
+theorem C09_alias_node (root : Node) (w : World) (fuel : Nat) (rs : Bool) (fl : Flags) (t : String)
+    (path : Path) (st st' : EvSt) (v : Val) (hfresh : plookup path st.cache = none)
+    (h : evalNodeF root w (fuel + 1) rs (.leaf fl (.xref t)) path st = .ok (v, st')) :
+    plookup path st'.cache = some v ∧
+    ∃ tp, xrefTarget root st.cache (root.size + 1) t = some tp ∧ plookup tp st'.cache = some v := by
+  refine ⟨evalNodeF_cached h, ?_⟩
+  obtain ⟨_, hcase⟩ := evalNodeF_ok_inv h
+  rcases hcase with ⟨hv, _, _⟩ | ⟨_, _, st2, himpl, rfl⟩
+  · rw [hfresh] at hv; cases hv
+  · simp only [evalImpl] at himpl
+    obtain ⟨tp, htp, hv⟩ := xrefLoop_alias _ _ _ _ _ _ himpl
+    refine ⟨tp, by simpa using htp, ?_⟩
+    simp only [finish_cache, plookup_cons]
+    split
+    · rfl
+    · exact hv
+
+example : ∃ v st', evalNodeF c09ExChain {} 20 false (.leaf {} (.xref "a")) [.str "d"] {} = .ok (v, st') ∧
+    plookup [.str "d"] st'.cache = some v ∧ plookup [.str "c"] st'.cache = some v := by
+  refine ⟨_, _, rfl, ?_, ?_⟩ <;> rfl
+
+/- in `evaluate_node` a memo hit returns exactly the memoised value: whoever evaluates the target
+   path afterwards — the containing mapping, another reference, a call argument — gets the same
+   `Val` (same `oid`) the reference got, whatever node and mode it is asked with -/
+theorem C09_cache_hit_same_object (root : Node) (w : World) (fuel : Nat) (rs : Bool) (n : Node)
+    (path : Path) (st st' : EvSt) (v v' : Val) (hc : plookup path st.cache = some v)
+    (h : evalNodeF root w fuel rs n path st = .ok (v', st')) : v' = v := by
+  cases fuel with
+  | zero => simp [evalNodeF] at h
+  | succ fuel =>
+    obtain ⟨_, hcase⟩ := evalNodeF_ok_inv h
+    rcases hcase with ⟨hv, _, _⟩ | ⟨hnone, _⟩
+    · rw [hc] at hv; cases hv; rfl
+    · rw [hc] at hnone; cases hnone
+
+example : ∃ st', evalNodeF c09ExChain {} 3 true (.leaf {} (.scalar .null)) [.str "c"]
+    { cache := [([.str "c"], .list [.str "c"] [])] } = .ok (.list [.str "c"] [], st') := ⟨_, rfl⟩
+
+/- … "wherever the target is defined (earlier, later …)": and the memoised value of the target
+   never changes during the rest of the evaluation (`WF`/`Ext`: state invariant and extension order
+   of AY.Lemmas.EvalLemmas, preserved by every successful `evalNodeF`) -/
+theorem C09_alias_stable (root : Node) (w : World) (fuel : Nat) (rs : Bool) (n : Node) (path tp : Path)
+    (st st' : EvSt) (v a : Val) (hwf : WF st) (htp : plookup tp st.cache = some a)
+    (h : evalNodeF root w fuel rs n path st = .ok (v, st')) : plookup tp st'.cache = some a :=
+  (evalNodeF_wf root w fuel rs n path st v st' hwf h).2.cache tp a htp
+
+example : WF ({} : EvSt) ∧ ∃ v st', evalNodeF c09ExChain {} 20 false c09ExChain [] {} = .ok (v, st') :=
+  ⟨WF.init, _, _, rfl⟩
+
+/- The whole-build statement. For a tree whose containers have pairwise distinct keys (every tree
+   the library builds), after a successful build *every* reference node of the tree — at any path
+   `p`, defined before or after its target, inside lists, mappings or call arguments, evaluated in
+   whatever order — holds the very value `a` that is memoised for the node `m` at the path `tp` its
+   chain of references ends in (`xrefResolve`: follow the references through the tree, any length),
+   and `m` is not a reference. Since containers and execution results carry their `oid`, this is
+   object identity. -/
+theorem C09_alias_evaluate (w : World) (root : Node) (v : Val) (st : EvSt)
+    (huk : uniqueKeys root = true) (h : evaluate w root = .ok (v, st))
+    (p : Path) (f : Flags) (t : String) (hm : getNode root p = some (.leaf f (.xref t))) :
+    ∃ a fuel tp m, plookup p st.cache = some a ∧ xrefResolve root fuel t = some tp ∧
+      getNode root tp = some m ∧ (∀ f' t', m ≠ .leaf f' (.xref t')) ∧ plookup tp st.cache = some a :=
+  evaluate_xref_alias huk h hm
+
+example : uniqueKeys c09ExChain = true ∧ getNode c09ExChain [.str "d"] = some (.leaf {} (.xref "a")) ∧
+    xrefResolve c09ExChain 4 "a" = some [.str "c"] := ⟨rfl, rfl, rfl⟩
+
+/- forward, backward and chained references; a reference to a list element; the referenced
+   container `c` is one object (`oid = [c]`) under `a`, `b`, `c` and `d` -/
+example : ∃ st, evaluate {} c09ExChain = .ok
+    (.dict [] [
+      (.str "a", .list [.str "c"] [.scalar (.int 1), .scalar (.int 1)]),
+      (.str "b", .list [.str "c"] [.scalar (.int 1), .scalar (.int 1)]),
+      (.str "c", .list [.str "c"] [.scalar (.int 1), .scalar (.int 1)]),
+      (.str "d", .list [.str "c"] [.scalar (.int 1), .scalar (.int 1)])], st) := ⟨_, rfl⟩
+
+example : xrefTarget c09ExChain [] (c09ExChain.size + 1) "a" = some [.str "c"] := by decide
+
 end AY
